@@ -51,6 +51,23 @@ def sh(cmd, cwd=None, timeout=None, env=None, check=False, mem_gb=None):
     return rc, out, dt
 
 
+def prune_target(tdir, crates):
+    """The scratch path of the crate under test changes on every run, so cargo keeps one copy of its artefacts per run in the
+    cached target directory; drop them (the dependencies stay cached)."""
+    import glob
+    for sub in ("debug", "release"):
+        for c in crates:
+            for pat in ("deps/lib%s-*" % c, "deps/%s-*" % c, ".fingerprint/%s-*" % c, "incremental/%s-*" % c, "%s*" % c, "lib%s*" % c):
+                for f in glob.glob(os.path.join(tdir, sub, pat)):
+                    if os.path.isdir(f):
+                        shutil.rmtree(f, ignore_errors=True)
+                    else:
+                        try:
+                            os.remove(f)
+                        except OSError:
+                            pass
+
+
 def repo_tree_hash():
     """Hash of the source files of /repo's working tree (not .git, not target)."""
     h = hashlib.sha256()
